@@ -1,5 +1,5 @@
 # What each claimed check asserts about itself (copied into MANIFEST.json by gen_manifest.py).
-HOOK_COMMITS = ["60bdaa0", "64099f4", "7349612", "942f497"]
+HOOK_COMMITS = ["60bdaa0", "64099f4", "7349612", "942f497", "7ee450a"]
 NOT_APPLICABLE = {}
 CLAIMS = {
     "C20": {
@@ -385,3 +385,6 @@ CLAIMS["C11"]["text"] += (" After a granted refresh from the same address the ge
 CLAIMS["C04"]["text"] += (" A WebSocket-listener layer (TestWebSocketListener) drives the real /ws and /tls/ws listener over loopback behind the real gate and a counting resource manager, with every shape of inbound HTTP exchange: a valid upgrade; upgrades refused with 4xx before the hijack or closed after it; plain, partial and non-HTTP requests; TLS or plaintext mismatch; each followed by hang-up, half-close, stall or more data. "
     "A connection which never became a WebSocket connection must have its scope Done and raw socket closed once the handshake timeout has passed, and after Close the manager reads zero and every connection is closed as seen from the remote end.")
 CLAIMS["C04"]["note"] += (" The WebSocket layer uses real sockets and real time: the verdict depends on time only through 5 s upper bounds. The consumer of Accept is the harness; the outbound ws dial and the libp2p upgrade on top of ws are not driven; connections served by the fallback handler are audited after Close only.")
+
+CLAIMS["C05"]["text"] += (" Callers may arrive with a context that is already over (cancelled or expired); O10: once every caller has returned no dial-worker goroutine is alive (goroutine dump). A dial worker may linger (yields, or 1 us - 50 ms of virtual time) between noticing that its last caller left and cleaning up after itself (schedule point dialWorker:exiting, build tag verif), so that a new worker for the same peer is at work meanwhile. "
+    "Address kinds include ws/wss on the IP and port number of a quic-v1 entry and webtransport on those of a tcp entry (nothing shadows them across layer-4 protocols: they must be attempted).")
